@@ -425,6 +425,62 @@ func agreeDecode(r *engine.Run, rule string) {
 			}
 		}
 	})
+	// the decoding of one slot may live in a helper of the decoder: a call of a
+	// helper that reads a weight stands for the read (its node result carries it)
+	slotHelper := map[ssa.Value]bool{}
+	for _, g := range opGroup(r, f) {
+		if g == f {
+			continue
+		}
+		reads := false
+		engine.Instrs(g, func(in ssa.Instruction) {
+			if c, ok := in.(*ssa.Call); ok {
+				if sc := c.Call.StaticCallee(); sc != nil && sc.Name() == "Uint64" && sc.Signature.Recv() != nil {
+					if nm := namedOf(sc.Signature.Recv().Type()); nm != nil && nm.Obj().Pkg() != nil && nm.Obj().Pkg().Path() == "encoding/binary" {
+						reads = true
+					}
+				}
+			}
+		})
+		if !reads {
+			continue
+		}
+		engine.Instrs(f, func(in ssa.Instruction) {
+			if c, ok := in.(*ssa.Call); ok && c.Call.StaticCallee() == g {
+				weightReads = append(weightReads, c)
+				slotHelper[c] = true
+			}
+		})
+	}
+	// nilSlot: the edge of b on which the node a slot helper returned is nil (an empty slot)
+	nilSlot := func(b *ssa.BasicBlock) *ssa.BasicBlock {
+		if len(b.Instrs) == 0 {
+			return nil
+		}
+		iff, ok := b.Instrs[len(b.Instrs)-1].(*ssa.If)
+		if !ok {
+			return nil
+		}
+		bo, ok := iff.Cond.(*ssa.BinOp)
+		if !ok || (bo.Op != token.EQL && bo.Op != token.NEQ) {
+			return nil
+		}
+		x, y := bo.X, bo.Y
+		if nilConst(x) {
+			x, y = y, x
+		}
+		if !nilConst(y) {
+			return nil
+		}
+		ex, ok := through(x).(*ssa.Extract)
+		if !ok || !slotHelper[ex.Tuple] {
+			return nil
+		}
+		if bo.Op == token.EQL {
+			return b.Succs[0]
+		}
+		return b.Succs[1]
+	}
 	accumulated := false
 	var childStores []*ssa.Store
 	engine.Instrs(f, func(in ssa.Instruction) {
@@ -474,7 +530,7 @@ func agreeDecode(r *engine.Run, rule string) {
 			b := work[0]
 			work = work[1:]
 			for _, s := range b.Succs {
-				if seen[s] || storeBlocks[s] {
+				if seen[s] || storeBlocks[s] || s == nilSlot(b) {
 					continue
 				}
 				if _, isRet := s.Instrs[len(s.Instrs)-1].(*ssa.Return); isRet {
